@@ -91,7 +91,7 @@ def netPton4 (src0 : Bytes) (size0 : Nat) : Except (List Nat) (Nat × List Nat) 
   let ch := src0.headD 0
   let src := src0.drop 1
   let r : Except (List Nat) (Nat × Bytes × Nat × List Nat) :=
-    if ch = 48 && (src.headD 0 = 120 || src.headD 0 = 88) && isXDigit ((src.drop 1).headD 0) then
+    if ch == 48 && (src.headD 0 == 120 || src.headD 0 == 88) && isXDigit ((src.drop 1).headD 0) then
       (if size0 = 0 then .error [] else hexLoop (src.drop 1) 0 0 size0 [])
     else if isDigit ch then decOctets (src0.length + 1) ch src size0 []
     else .error []
@@ -99,7 +99,7 @@ def netPton4 (src0 : Bytes) (size0 : Nat) : Except (List Nat) (Nat × List Nat) 
   | .error o => .error (padTo size0 o)
   | .ok (ch, src, size, out) =>
     let r2 : Option (Option Nat × Nat) :=
-      if ch = 47 && isDigit (src.headD 0) && !out.isEmpty then
+      if ch == 47 && isDigit (src.headD 0) && !out.isEmpty then
         match decNum 32 0 (src.headD 0) (src.drop 1) with
         | none => none
         | some (b, ch', _) => if ch' ≠ 0 then none else some (some b, 0)
